@@ -118,6 +118,18 @@ func NewPeerPool(cfg PeerPoolConfig) (*PeerPool, error) {
 		}
 	}
 	if !nodeFound {
+		// The peer list may name this node by its address ("host:port") while
+		// NodeID is the bare host name (the --node-id default). Adopt the
+		// listed name, so that every node hashes over the same ring.
+		for _, p := range allPeers {
+			if host, _, err := net.SplitHostPort(p); err == nil && host == cfg.NodeID {
+				cfg.NodeID = p
+				nodeFound = true
+				break
+			}
+		}
+	}
+	if !nodeFound {
 		allPeers = append(allPeers, cfg.NodeID)
 	}
 
